@@ -70,6 +70,7 @@ pub fn all() -> Vec<Prop> {
 /// crash points, ...).  Each property module that needs one adds an arm here.
 pub fn helper_main(args: &[String]) -> i32 {
     match args.first().map(|s| s.as_str()) {
+        Some("numcsv-selftest") => crate::model::selftest_numcsv::main(&args[1..]),
         _ => {
             eprintln!("unknown helper {:?}", args);
             2
